@@ -34,7 +34,14 @@
 (***************************************************************************)
 EXTENDS PubServer
 
-CONSTANTS MaxFaults      \* model bound on crashes + injected errors
+CONSTANTS
+    MaxFaults,          \* model bound on crashes + injected errors
+    TruncateOnCreate,   \* FALSE: file::create_file opens without O_TRUNC
+                        \*   (as coded, file.rs:84-113)
+    RemoveOldFirst      \* FALSE: a left-over rsync/old is not removed
+                        \*   before rename(current, old) (as coded,
+                        \*   rsync.rs:118-131); TRUE: it is, through the
+                        \*   fault point "rsync_remove_old"
 
 VARIABLES
     notif,      \* notification.xml
@@ -157,7 +164,9 @@ NextOps ==
       [] w.phase = "rsync" /\ w.step = "files" /\ w.tf # {} ->
             {<<"tmpfile", serial, x[2][1]>> : x \in w.tf}
       [] w.phase = "rsync" /\ w.step = "files" /\ w.tf = {} ->
-            IF rsCur.exists THEN {<<"cur2old">>} ELSE {<<"new2cur", serial>>}
+            IF rsCur.exists
+            THEN (IF RemoveOldFirst /\ rsOld.exists THEN {<<"rmold">>} ELSE {<<"cur2old">>})
+            ELSE {<<"new2cur", serial>>}
       [] w.phase = "rsync" /\ w.step = "new2cur" -> {<<"new2cur", serial>>}
       [] w.phase = "rsync" /\ w.step = "rmold" ->
             IF rsOld.exists THEN {<<"rmold">>} ELSE {}
@@ -182,7 +191,7 @@ TmpObjs(n) == IF TmpOf(n) = {} THEN {} ELSE (CHOOSE t \in TmpOf(n) : TRUE).objs
 Overwrite(O, u, c) ==
     LET old == {o \in O : o[1] = u}
         oc == (CHOOSE o \in old : TRUE)[2]
-        nc == IF old = {} THEN c
+        nc == IF old = {} \/ TruncateOnCreate THEN c
               ELSE IF oc # Garbage /\ Size[c] >= Size[oc] THEN c ELSE Garbage
     IN  (O \ old) \cup {<<u, nc>>}
 
@@ -205,7 +214,7 @@ FsStep(op) ==
          [] op[1] = "newnotif" ->
               LET refs == w.refs \o w.keep
                   nd == Len(refs)
-                  torn == newnotif.exists /\ newnotif.nd > nd
+                  torn == ~TruncateOnCreate /\ newnotif.exists /\ newnotif.nd > nd
               IN
               /\ newnotif' = [exists |-> TRUE,
                               nd |-> IF torn THEN newnotif.nd ELSE nd,
@@ -262,7 +271,7 @@ FsStep(op) ==
               /\ UNCHANGED <<notif, newnotif, files, rsOld, seen>>
          [] op[1] = "rmold" ->
               /\ rsOld' = NoDir
-              /\ w' = [w EXCEPT !.step = "rmold"]
+              /\ w' = IF w.step = "files" THEN w ELSE [w EXCEPT !.step = "rmold"]
               /\ UNCHANGED <<notif, newnotif, files, rsCur, rsTmp, seen>>
 
 WriteComplete == ~Idle /\ NextOps = {}
